@@ -61,6 +61,7 @@ Entries == <<
   [n |-> "EllipticFunction.funcs", k |-> "member", a |-> <<"num">>, o |-> 5],
   [n |-> "EllipticFunction.sncndn", k |-> "member", a |-> <<"num">>, o |-> 3],
   [n |-> "EllipticFunction.Carlson", k |-> "member", a |-> <<"num", "num", "num">>, o |-> 4],
+  [n |-> "EllipticFunction.Carlson2", k |-> "member", a |-> <<"num", "num">>, o |-> 3],
   [n |-> "NormalGravity.Gravity", k |-> "member", a |-> <<"num", "num">>, o |-> 3],
   [n |-> "NormalGravity.U", k |-> "member", a |-> <<"num", "num", "num">>, o |-> 4],
   [n |-> "Math.angles", k |-> "member", a |-> <<"num">>, o |-> 6],
